@@ -44,7 +44,8 @@ def run(rep):
                 "spans) is compared with Peg!Outcome evaluated by TLC. Non-trivial: accepted with a model; distinct "
                 "by (grammar, cfg, input).")
     rep.assumptions = ["grammars restricted to Peg!WellFormed (DESIGN.md section 7)",
-                       "regexes of the shape pre[set]{min,}post; base types ID INT BOOL STRING; ASCII inputs"]
+                       "regexes of the shape pre[set]{min,}post; base types ID INT BOOL STRING; ASCII inputs plus one "
+                       "non-ASCII letter"]
     # (M) + (S->I): bounded universes, every case replayed
     for fam, depth in ([("ops", 1), ("kinds", 1), ("opts", 1), ("alias", 1)] if quick else
                        [("ops", 2), ("kinds", 2), ("asg", 1), ("mods", 1), ("opts", 2), ("alias", 1)]):
@@ -52,6 +53,12 @@ def run(rep):
     rep.exhaustive = True
     ng, per = (100, 8) if quick else (1500, 10)
     cases = random_cases(rng, ng, per)
+    # chains and cycles of abstract / match / common rules in any order of definition (what an attribute of such
+    # a type holds depends on the inferred rule kinds)
+    from . import c03
+    for c in c03.cases_for(rng, 40 if quick else 500, 5):
+        c["id"] = len(cases)
+        cases.append(c)
     info, stats = P.judge_cases(rep, PID, cases, label="random")
     rep.bounds["random"] = stats
 
